@@ -16,6 +16,14 @@ CLAIMED = {
             "xarray may widen selections before the backend is called; bound checked against the selection's line span", "7 C11"),
     "C05": ("Lean theorems attitude / data_quality / facility_1_4 / volume_directory / trailer / leader / static_records on the record layouts regenerated from /repo (incl. their this-expressions): a successful parse consumes exactly the declared bytes for every count and length; layout correspondence; all-N oracle with field-by-field comparison after each variable record",
             "the interpreter's meaning of construct classes is tied by differential testing; read_sar_trailer's own slicing is only tested", "7 C05"),
+    "C07": ("Lean theorems read_valid / cache_is_used / no_cache_consulted over a state machine on the TEXT of the two index files, parametric in json.loads (two contracts), using the codec round trip; correspondence of codec, json and the cache-first open on real files; oracle over producer x location x filesystem x rpc(write) x rpc(read)",
+            "EnvOK assumptions (rpc-stability and codec domain of the uncached groups, json contracts) are hypotheses; non-local filesystems are a recorded known finding", "7 C07"),
+    "C08": ("Lean theorem decode_encode: decodeDoc r (encodeDoc g) = g.withRpc r for every group in a decidable codec domain (structural induction; incl. calendar/text round trip of datetime references), tuple_tag, document_is_json; text-exact correspondence with caching.encode/decode",
+            "json float/int round trip and ndarray.tolist/np.array are contracts; zero-size rank>=2 arrays are a recorded known finding", "7 C08"),
+    "C09": ("Lean theorems prefix_not_json (no proper non-empty prefix of a dumped JSON container is balanced), open_after_crash (every state of arbitrary prefixes at both locations), repair; every-prefix oracle on real documents, SIGKILL runs in the thorough tier",
+            "that an interrupted write leaves a prefix is OS behaviour (sampled); json.loads rejecting unbalanced text is a contract (tested on every prefix)", "7 C09"),
+    "C10": ("Lean theorem history_independent: for every operation sequence (induction, no length bound) every open returns the uncached group of its own rpc; inv_step; writes; real-file histories vs the flow model and vs fresh uncached opens, directory hashes, option-dict deep copies",
+            "caller-dict aliasing is only observed by the harness", "7 C10"),
     "C18": ("Lean theorem truncated_image (for arbitrary bytes: short file => error or fewer than n records) and complete_image; truncation/missing-file oracle over every record boundary +-1 x rpc",
             "xarray.Dataset's dimension check and promptness are not proved (measured)", "7 C18"),
 }
